@@ -59,19 +59,19 @@ PROPS = {
                           'argument and soln.x lie inside the caller\'s bounds; with projections the bound box is the last projector (closure applied symbolically).',
             'level_note': BOX_NOTE,
             'not_decided': ['NaN/inf steps (A-nan precondition on the argument of as_absolute_coordinates; numerics of the step solvers)']},
-    'C12': {'bundles': ['trsbox', 'trclip', 'trsnorm'], 'level': 'proof', 'design_ref': 'DESIGN.md section 10.14 (C12)',
-            'level_text': 'Partial claim, three of the five clauses of the statement (the norm bound for the conjugate-gradient phase only). (1) "the returned gradient equals g + H d": loop invariants on the real loops of trsbox (gnew == g + H d in the conjugate-gradient '
+    'C12': {'bundles': ['trsbox', 'trclip', 'trsnorm', 'trsdec'], 'level': 'proof', 'design_ref': 'DESIGN.md section 10.14 (C12)',
+            'level_text': 'Partial claim, four of the five clauses of the statement (the norm bound and the model decrease for the conjugate-gradient phase only). (1) "the returned gradient equals g + H d": loop invariants on the real loops of trsbox (gnew == g + H d in the conjugate-gradient '
                           'loop) and alt_trust_step (gnew - H d keeps its entry value through every rotation; hred == H applied to the step restricted to the free variables, across restarts of the boundary '
                           'iteration), for every H, g, box, radius, dimension and iteration count, in real arithmetic, for the step handed to the final clip. (2) "the step satisfies the box exactly": every return path of '
                           'both functions returns an output of d_within_bounds (ghost tag), and d_within_bounds returns sl - xopt <= d <= su - xopt componentwise in IEEE-754 arithmetic, with the coordinates recorded as '
-                          'fixed exactly on their bounds. (3) "||d|| <= delta" for the conjugate-gradient phase of trsbox (bundle trsnorm, real arithmetic): with m the free set, sum of squares of the free part of d <= delsq and sum of squares of the fixed part == delta^2 - delsq are invariants of the real loop (a step is cut at BLEN, the positive root of ||d_free + t s||^2 == delsq: nonlinear real arithmetic on the real formula; the bound scan only shortens it; fixing a variable moves its square out of the free part and out of delsq), so the step handed to the final clip or to the boundary iteration has ||d|| <= delta. NOT decided: that the rotations of alt_trust_step preserve the norm, the model decrease and the Cauchy decrease.',
+                          'fixed exactly on their bounds. (3) "||d|| <= delta" for the conjugate-gradient phase of trsbox (bundle trsnorm, real arithmetic): with m the free set, sum of squares of the free part of d <= delsq and sum of squares of the fixed part == delta^2 - delsq are invariants of the real loop (a step is cut at BLEN, the positive root of ||d_free + t s||^2 == delsq: nonlinear real arithmetic on the real formula; the bound scan only shortens it; fixing a variable moves its square out of the free part and out of delsq), so the step handed to the final clip or to the boundary iteration has ||d|| <= delta. (4) "does not increase the quadratic model" for the conjugate-gradient phase (bundle trsdec): with Q(d) = g.d + 1/2 d.H d, the invariants Q(d) <= 0 and (unless the method restarts) "the previous direction is orthogonal to the reduced gradient and gredsq is its squared norm" hold on the real loop, so every step changes Q by t*s.gnew + 1/2 t^2 s.H s <= 0 and Q(d) <= Q(0) wherever the loop is left. NOT decided: that the rotations of alt_trust_step preserve the norm and decrease the model, and the Cauchy decrease.',
             'level_note': 'Domain Lc (bundle trsbox): floats are reals; vectors are formal linear combinations of atoms, so linearity of +, -, scaling, H.dot and masking v[xbdi == 0] is built in (they are linear maps on R^n), masking is '
                           'idempotent, vector equality is decided through a generic linear functional; scalars computed from dot products and square roots are unconstrained, so the identities hold for arbitrary step lengths and angles. '
                           'Domain B (bundle trclip): comparisons / minimum / maximum / mask stores exact in binary64; + and - abstracted by three trusted IEEE-754 lemmas (determinism, monotonicity of round-to-nearest subtraction in its '
                           'first operand, NaN only from NaN or inf-inf) because neither solver decides the bit-blasted comparison of two 53-bit subtractions (unknown after 150 s). Preconditions: the pure-Python path (use_fortran False), '
                           'the box contains the finite current point (asserted by trsbox on entry), the step handed to the clip is finite (A-nan). NOT decided: that the final clip leaves the step unchanged in real arithmetic '
-                          '(so the gradient identity and the norm bound are about the step before the clip; they differ by rounding only), norm preservation in alt_trust_step, the two decrease clauses. Bundle trsnorm: dot products are bilinear by construction over the atoms, DOT(v, v) >= 0, sqrt(a)^2 == a; trusted facts about index sets: a masked sum loses exactly the i-th term when coordinate i leaves the free set, an element of a masked vector is the element or zero; the search direction is abstracted to one atom once its norm has been taken.',
-            'not_decided': ['||d|| <= delta*(1+1e-8) after the boundary iteration alt_trust_step (norm preservation of the rotations)', 'the quadratic model does not increase', 'at least the Cauchy decrease', 'the final clip is the identity in real arithmetic (the gradient identity is stated for the step before it)']},
+                          '(so the gradient identity and the norm bound are about the step before the clip; they differ by rounding only), norm preservation in alt_trust_step, the two decrease clauses. Bundle trsnorm: dot products are bilinear by construction over the atoms, DOT(v, v) >= 0, sqrt(a)^2 == a; trusted facts about index sets: a masked sum loses exactly the i-th term when coordinate i leaves the free set, an element of a masked vector is the element or zero; the search direction is abstracted to one atom once its norm has been taken. Bundle trsdec: H symmetric (asserted by trsbox on entry), gnew == g + H d used as a definition at the loop head (proved in bundle trsbox), the dot products of the abstracted direction with the live vectors are kept as definitional equations.',
+            'not_decided': ['||d|| <= delta*(1+1e-8) after the boundary iteration alt_trust_step (norm preservation of the rotations)', 'the quadratic model does not increase during the boundary iteration alt_trust_step', 'at least the Cauchy decrease', 'the final clip is the identity in real arithmetic (the gradient identity is stated for the step before it)']},
     'C13': {'bundles': ['vecs', 'trlin'], 'level': 'proof',
             'level_text': 'Partial claim: in ctrsbox_pgd / ctrsbox_sfista / ctrsbox_linear the trust-region ball is appended LAST to the projection list (closure recognised and tied to '
                           'util.pball\'s verified contract), Dykstra\'s result is an output of the last projector whenever a sweep ran, so every returned step has ||d|| <= Delta in real '
